@@ -20,7 +20,7 @@ CLAIMED = {
          "is continuous at every node with value delta_j,node; the modelled piecewise basis summed with node values IS the block interpolant on every closed area; for a function with d+1 derivatives "
          "(the last bounded by M) the interpolation error on the whole grid range is at most (1+Lam) M h^(d+1)/(d+1)! and is Lipschitz with constant Lam1 M h^(d+1)/(d+1)! + M h^d/d!, hence convergence under refinement; "
          "such an error changes the prediction (any kernel triple, proper or improper convolution integral) by at most (int|reg|/z + |loc|) E + int|sing|(1-z)/z^2 (Le x + E): O(h^d) in total. "
-         "PARTIAL: the bounds Lam, Lam1 on the Lebesgue functions of the blocks (node geometry; satisfiable: GridExample.v; discharged for degree 1 on every increasing grid: LinearGrid.v, and Lam = 5/4 for degree 2 on equally spaced blocks: UniformGrid.v) and the existence of the improper integrals are hypotheses; interpolation variable x "
+         "PARTIAL: the bounds Lam, Lam1 on the Lebesgue functions of the blocks (node geometry; satisfiable: GridExample.v; discharged for degree 1 on every increasing grid: LinearGrid.v, and Lam = 5/4, Lam1 = 5/s for degree 2 on equally spaced blocks: UniformGrid.v) and the existence of the improper integrals are hypotheses; interpolation variable x "
          "(log mode: f o exp); QUADPACK's error is outside; the run comparison (three grid levels + degree, FactScaleVar, unordered grid, node vs displaced x) uses calibrated bounds — a test.",
          "Trusted: Coq kernel+vm_compute; std-lib real-number axioms + classic + funext (Coquelicot); harnesses; eko's basis modelled by hand; patrol tolerances calibrated on the unchanged tree.", "0.3 / 4 C19"),
  "C02": ("Coq theorems over an abstract field (field/ring) on a hand-written model of CouplingConstants/weight builders; "
